@@ -413,7 +413,9 @@ impl Source for Driver {
             && t.held.is_empty() && !t.awaiting.values().any(|k| k == "pubrel") && t.persistent
         {
             // C16 speaks of reconnecting "with the session present": crash points are taken in persistent sessions
-            return Some(Call::of("crash"));
+            let mut c = Call::of("crash");
+            c.flag = self.rng.chance(1, 2); // order in which the two parts of the export are restored
+            return Some(c);
         }
         if c < 23 && (self.profile == "reuse" || self.profile == "hostile") {
             // the transport delivers only the first bytes of a frame, then dies
